@@ -23,7 +23,8 @@ TECHNIQUE = "runtime differential monitor across interpreter processes: host-con
 RULE = ("seeded generated supported-fragment programs restricted to 3.8 syntax (biased to version-sensitive shapes: walrus "
         "in call arguments / subscripts / comprehensions, star expressions in displays / returns / subscripts-as-tuples, "
         "nested f-strings with quotes, positional-only parameters, dict/set displays with stars, lambda defaults, "
-        "parenthesis-sensitive forms) + targeted shapes + the repository's scripts x 8 option combinations x host "
+        "parenthesis-sensitive forms) + targeted shapes + a hash-selected slice of C12's class-statement catalogue (every "
+        "member kind, headers, placements) + the repository's scripts x 8 option combinations x host "
         "interpreter {3.10, 3.12} (thorough: 3.10-3.13) x runtime interpreter {3.8, 3.9, 3.11, 3.13} (thorough: 3.8-3.13). "
         "A record is distinct by (host, normalised output text); non-trivial iff the original runs on that runtime "
         "and prints something.")
@@ -32,8 +33,8 @@ ASSUMPTIONS = ["programs whose original fails on a runtime are out of the domain
 EXHAUSTIVE = {"quick": False, "thorough": False}
 FLOOR = {"quick": 3000, "thorough": 50000}
 MONITORS = False
-SIZES = {"quick": dict(n=420, hosts=["3.10", "3.12"], runtimes=["3.8", "3.9", "3.11", "3.13"]),
-         "thorough": dict(n=6000, hosts=["3.10", "3.11", "3.12", "3.13"], runtimes=["3.8", "3.9", "3.10", "3.11", "3.12", "3.13"])}
+SIZES = {"quick": dict(n=420, class_mod=6, hosts=["3.10", "3.12"], runtimes=["3.8", "3.9", "3.11", "3.13"]),
+         "thorough": dict(n=6000, class_mod=1, hosts=["3.10", "3.11", "3.12", "3.13"], runtimes=["3.8", "3.9", "3.10", "3.11", "3.12", "3.13"])}
 RUNNER = os.path.join(envs.LIB, "olverif", "runtime_runner.py")
 
 TARGETED = {
@@ -84,6 +85,8 @@ TARGETED = {
     "host-class-in-function-nested-comprehension": "g3 = 'global-g3'\ndef mk(p):\n    class K:\n        a = [[(p, g3) for _ in range(1)] for r in range(2)]\n        b = [(lambda: (p, g3))() for r in range(1)]\n        c = [[min(r, 1) for _ in range(1)] for r in range(2)]\n    return K.a, K.b, K.c\nprint(mk('param'))\n",
     "super-in-loops-of-methods": "class B:\n    def who(self):\n        return 'B'\n    @classmethod\n    def make(cls):\n        return cls.__name__\nclass C(B):\n    def who(self):\n        out = []\n        for i in range(2):\n            out.append(super().who() + str(i))\n        n = 0\n        while n < 1:\n            n += 1\n            out.append(super().who())\n        return out\n    @classmethod\n    def make(cls):\n        for _ in range(1):\n            r = super().make()\n        return r\nprint(C().who(), C.make())\n",
     "builtin-named-comprehension-variable": "def f():\n    r = [len for len in [1, 2]]\n    def g():\n        return len('ab')\n    return r, g()\nprint(f())\ndef h():\n    def k():\n        global abs\n        return abs(-3)\n    abs = 5\n    return k(), abs\nprint(h())\n",
+    "explicit-classmethod-hooks": "class B:\n    @classmethod\n    def __init_subclass__(cls, **kw):\n        super().__init_subclass__(**kw)\n        cls.seen = cls.__name__\n    @classmethod\n    def __class_getitem__(cls, k):\n        return (cls.__name__, k)\nclass C(B):\n    pass\nprint(C.seen, C[1], B['s'])\nclass B2:\n    def __init_subclass__(cls, **kw):\n        cls.seen = cls.__name__\n    def __class_getitem__(cls, k):\n        return (cls.__name__, k)\nclass C2(B2):\n    pass\nprint(C2.seen, C2[1])\n",
+    "posonly-receiver-super-in-loops": "class B:\n    def who(self):\n        return 'B'\nclass C(B):\n    def who(self, /):\n        out = []\n        for i in range(2):\n            out.append(super().who() + str(i))\n        return out\n    def two(self, /, x, *, y=1):\n        n = 0\n        while n < 1:\n            n += 1\n            r = (super().who(), x, y)\n        return r\nprint(C().who(), C().two(5, y=6))\n",
     "matrix-mult-and-ops": "class M:\n    def __matmul__(s, o):\n        return 'mm'\n    def __imatmul__(s, o):\n        return 'imm'\nm = M()\nprint(m @ 1)\nm @= 2\nprint(m, 7 // 2, 2 ** -1, ~5, 5 >> 1)\n",
 }
 
@@ -124,9 +127,28 @@ def star_subscript_trigger(tree, cfg, host, runtime):
     return False
 
 
+def class_catalogue(rec, size):
+    """A hash-selected slice of C12's class-statement catalogue (its observation helper goes along as a prelude)."""
+    from . import c12
+    skip = {"private", "super2"}
+    for (hdr, members, pl) in c12.cells("quick"):
+        if len(members) > 1 or pl not in ("module", "func", "loop", "inmethod") or (members and members[0] in skip):
+            continue
+        if hdr[3] not in (0, 1) and members:
+            continue
+        if int(rt.h8(["c15", list(hdr), members, pl, rec.seed]), 16) % size["class_mod"]:
+            continue
+        src = c12.program(hdr[0], hdr[1], hdr[2], hdr[3], members, pl)
+        if any(findings.triggered("C12", src=src, cfg=c) for c in envs.CFGS[:1]):
+            continue
+        yield "class:%s/%s/%s" % ("-".join(map(str, hdr)), "+".join(members) or "empty", pl), src, c12.OBS
+
+
 def sources(rec, size):
     for name, src in TARGETED.items():
         yield "targeted:" + name, src
+    for t in class_catalogue(rec, size):
+        yield t
     for f in sorted(glob.glob(os.path.join(envs.REPO, "oneliner_tests", "test_cases", "*.py"))):
         yield "repo:" + os.path.basename(f), open(f).read()
     # scope trees (the converter's symbol-table handling differs per *host* version: the same program must give
@@ -159,7 +181,9 @@ def run_shard(rec):
     seen = set()
     meta = {}
     idx = 0
-    for name, src in sources(rec, size):
+    for item in sources(rec, size):
+        name, src = item[0], item[1]
+        pre = item[2] if len(item) > 2 else None
         idx += 1
         if idx % rec.nshards != rec.shard:
             continue
@@ -187,7 +211,7 @@ def run_shard(rec):
                 continue
             seen.add(key)
             rid = len(records)
-            records.append({"id": rid, "src": src, "out": out})
+            records.append({"id": rid, "src": src, "out": out, "pre": pre})
             meta[rid] = (name, cfg, tree)
     if not records:
         return
@@ -246,7 +270,7 @@ def run_shard(rec):
                     rec.known_finding("KF-host-unparse-star-subscript")
                     continue
                 rec.violation(symptom, {"name": name, "src": rec0["src"], "cfg": list(cfg), "out": rec0["out"], "runtime": rtv,
-                                        "host": "%d.%d" % host},
+                                        "host": "%d.%d" % host, "pre": rec0.get("pre")},
                               {"msg": r.get("msg"), "expected": r.get("expected"), "observed": r.get("observed")})
         if len(rec.samples) < 1 and records:
             rec.sample({"host": "%d.%d" % host, "runtimes": size["runtimes"], "records_in_this_shard": len(records), "first_program": meta[0][0]})
@@ -264,7 +288,7 @@ def replay(case, rec):
         if case.get("runtime") in (None, "-"):
             rec.ok(case)
             return
-        json.dump([{"id": 0, "src": case["src"], "out": out}], open(os.path.join(work, "r.json"), "w"))
+        json.dump([{"id": 0, "src": case["src"], "out": out, "pre": case.get("pre")}], open(os.path.join(work, "r.json"), "w"))
         py = envs.interpreter(case["runtime"])
         subprocess.run([py, RUNNER, os.path.join(work, "r.json"), os.path.join(work, "o.json")], timeout=300)
         r = json.load(open(os.path.join(work, "o.json")))["results"][0]
